@@ -1009,19 +1009,19 @@ func (w *c02World) generated() {
 		}
 		return false
 	}
-	steps := 10 + rng.Intn(16)
+	steps := 14 + rng.Intn(22)
 	for i := 0; i < steps; i++ {
 		r := 1 + rng.Intn(c02Pool)
 		switch x := rng.Intn(100); {
 		case x < 20:
 			w.write(r, rng.Intn(7) == 0)
-		case x < 27:
+		case x < 26:
 			if len(held) < 2 && !heldRoot(r) {
 				if h := w.startWrite(r); h != nil {
 					held = append(held, h)
 				}
 			}
-		case x < 37:
+		case x < 35:
 			if len(held) > 0 {
 				k := rng.Intn(len(held))
 				w.finishWrite(held[k], rng.Intn(3) == 0)
@@ -1029,7 +1029,7 @@ func (w *c02World) generated() {
 			}
 		case x < 47:
 			w.sync()
-		case x < 59: // reference what may be referenced
+		case x < 65: // reference what may be referenced
 			var ok []int
 			for q := 1; q <= c02Pool; q++ {
 				if w.canRef(q) {
@@ -1058,18 +1058,18 @@ func (w *c02World) generated() {
 				}
 				w.revise(c, append(nr, ok...))
 			}
-		case x < 71:
+		case x < 75:
 			w.read(r, rng.Intn(12) == 0)
-		case x < 74:
-			w.readAll()
 		case x < 78:
+			w.readAll()
+		case x < 82:
 			if len(held) == 0 {
 				w.expireTemp(uint64(9 + rng.Intn(4)))
 				w.prune()
 			}
-		case x < 82:
+		case x < 85:
 			w.resizeCache(rng.Intn(4))
-		case x < 86:
+		case x < 89:
 			if len(held) == 0 {
 				ids := w.volumeIDs()
 				if len(ids) > 0 {
@@ -1089,22 +1089,22 @@ func (w *c02World) generated() {
 					}
 				}
 			}
-		case x < 90:
+		case x < 92:
 			if ids := w.volumeIDs(); len(held) == 0 && len(ids) > 1 {
 				w.removeVolume(ids[rng.Intn(len(ids))], rng.Intn(4) == 0)
 			}
-		case x < 92:
+		case x < 94:
 			if len(held) == 0 {
 				w.removeSector(r)
 			}
-		case x < 94:
+		case x < 96:
 			if len(w.volumeIDs()) < 3 {
 				w.addVolume(uint64(2 + rng.Intn(3)))
 			}
-		case x < 97:
+		case x < 98:
 			w.crash(held)
 			held = nil
-		case x < 98:
+		case x < 99:
 			if len(held) == 0 {
 				w.restart()
 			}
